@@ -309,11 +309,19 @@ def run_real(sc, line_preempt=None, wall_s=20.0, max_steps=6000):
               ping_timeout=(None if to is None else (simsched.secs(to) if to else 0)),
               ping_payload=sc.get("payload", ""),
               reconnect=(simsched.secs(sc["rc"]) if sc.get("rc") else 0))
+    # the process-wide default (websocket.setReconnect) and how the argument is spelled: "rc_arg" = "none" (argument left
+    # out: the default applies) | ticks (explicit, 0 included: the default must NOT apply); "rc" stays the EFFECTIVE value
+    if "rc_arg" in sc:
+        rf["reconnect"] = None if sc["rc_arg"] == "none" else simsched.secs(sc["rc_arg"])
+    import websocket._app as _A
+    saved_rc = _A.RECONNECT
     alive = []
     live_at_ret = []
     go = [False]
 
     def main():
+        if "rc_global" in sc:
+            websocket.setReconnect(simsched.secs(sc["rc_global"]))
         for run in sc["runs"]:
             net.begin_run(outcomes_of(run))
             try:
@@ -382,6 +390,7 @@ def run_real(sc, line_preempt=None, wall_s=20.0, max_steps=6000):
                     tracer.remove()
     finally:
         os.environ.update(saved_env)
+        _A.RECONNECT = saved_rc
     res = Real()
     items = []
     for t, ev in s.trace:
